@@ -14,7 +14,7 @@ Theorem C16_run_eq_spec_run : forall keep zero ops,
 Proof. exact run_eq_spec_run. Qed.
 Print Assumptions C16_run_eq_spec_run.
 
-Theorem C16_crun_eq_cspec_run : forall v0 ops, crun v0 ops = cspec_run v0 [] ops.
+Theorem C16_crun_eq_cspec_run : forall (V : Type) (v0 : V) ops, crun v0 ops = cspec_run v0 [] ops.
 Proof. exact crun_eq_cspec_run. Qed.
 Print Assumptions C16_crun_eq_cspec_run.
 
@@ -70,12 +70,12 @@ Proof. exact keep_never_stops. Qed.
 Print Assumptions C16_keep_never_stops.
 
 (* ControlStream: reads after "value = v" return v until the next assignment *)
-Theorem C16_control_stream_last_value_spec : forall v0 pre v k,
+Theorem C16_control_stream_last_value_spec : forall (V : Type) (v0 : V) pre v k,
   cspec v0 (pre ++ [CSet v] ++ repeat CNext k) = v.
 Proof. exact control_stream_last_value_spec. Qed.
 Print Assumptions C16_control_stream_last_value_spec.
 
-Theorem C16_control_stream_last_value : forall v0 pre v k,
+Theorem C16_control_stream_last_value : forall (V : Type) (v0 : V) pre v k,
   crun v0 (pre ++ [CSet v] ++ repeat CNext k) = crun v0 pre ++ repeat v k.
 Proof. exact control_stream_last_value. Qed.
 Print Assumptions C16_control_stream_last_value.
@@ -106,11 +106,11 @@ Theorem C16_mixers_calls_independent : forall ka za kb zb ops,
 Proof. exact run2_independent_spec. Qed.
 Print Assumptions C16_mixers_calls_independent.
 
-Theorem C16_controls_calls_independent : forall ops va vb,
+Theorem C16_controls_calls_independent : forall (V : Type) (ops : list (side * cop V)) va vb,
   on_side SideA (crun2 va vb ops) = cspec_run va [] (on_side SideA ops) /\
   on_side SideB (crun2 va vb ops) = cspec_run vb [] (on_side SideB ops).
 Proof.
-  intros ops va vb. rewrite <- !C16_crun_eq_cspec_run. exact (crun2_independent ops va vb).
+  intros V ops va vb. rewrite <- !C16_crun_eq_cspec_run. exact (crun2_independent V ops va vb).
 Qed.
 Print Assumptions C16_controls_calls_independent.
 
@@ -123,3 +123,14 @@ Example C16_example_two_mixers :
      (SideB, OItem (qc 37 3)); (SideA, OItem (qc 2 1)); (SideA, OStop); (SideB, OItem (qc 7 3))].
 Proof. vm_compute. reflexivity. Qed.
 Print Assumptions C16_example_two_mixers.
+
+(* Round 3: the ControlStream statements above hold for values of ANY type V (the code never inspects the value).
+   Non-vacuity at a heterogeneous value type: None is a value like any other - reading it does not end the stream
+   and later assignments are seen. *)
+Example C16_example_control_none :
+  crun INone [CNext; CSet (IZ 5); CNext; CSet INone; CNext; CNext; CSet (IQ (qc 1 2)); CNext]
+  = [INone; IZ 5; INone; INone; IQ (qc 1 2)] /\
+  cspec_run INone [] [CNext; CSet (IZ 5); CNext; CSet INone; CNext; CNext; CSet (IQ (qc 1 2)); CNext]
+  = [INone; IZ 5; INone; INone; IQ (qc 1 2)].
+Proof. vm_compute. split; reflexivity. Qed.
+Print Assumptions C16_example_control_none.
